@@ -221,6 +221,25 @@ def verify_alias(run):
                    "inf/-inf/nan are printed as <prefix>inf / -<prefix>inf / <prefix>nan, every other float with repr() (shortest round-tripping decimal, A-FMT)", fn=fq, meta=RP("py-values")))
 
 
+def verify_statics(run):
+    """two structural facts the round trip of whole engines depends on"""
+    src = run.src
+    fn = src.func("library", "Representation.repr_ndarray")
+    run.under_contract("library", "Representation.repr_ndarray", fn)
+    assigns = [ast.unparse(n.value) for n in ast.walk(fn) if isinstance(n, ast.Assign) and any(isinstance(t, ast.Name) and t.id == "elements" for t in n.targets)]
+    run.add(static("library.Representation.repr_ndarray/every_element_through_repr1", assigns == ["', '.join((self.repr1(y, level) for y in x))"],
+                   f"assignments to `elements`: {assigns} (every element is printed by repr1, so that inf/nan get the alias prefix at any position)", fn="library.Representation.repr_ndarray",
+                   meta={"replay": {"module": "contracts.repr_native", "func": "replay_array_repr", "kwargs": {}, "vars": {}}}))
+    ei = src.func("engine", "Engine.__init__")
+    run.under_contract("engine", "Engine.__init__", ei)
+    loops = [ast.unparse(n) for n in ast.walk(ei) if isinstance(n, ast.For)]
+    want = "for variable in self.variables:\n    for term in variable.terms:\n        term.update_reference(self)"
+    vp = ast.unparse(src.func("engine", "Engine.variables", "getter").body[-1])
+    run.add(static("engine.Engine.__init__/references_of_the_terms_of_all_variables_are_updated", want in loops and vp in ("return self.input_variables + self.output_variables", "return [*self.input_variables, *self.output_variables]"),
+                   f"loops in the constructor: {[l.splitlines()[0] for l in loops]}; Engine.variables: `{vp}`", fn="engine.Engine.__init__",
+                   meta={"replay": {"module": "contracts.repr_native", "func": "replay_rebuild_references", "kwargs": {}, "vars": {}}}))
+
+
 def verify_binding(run):
     """Representation.construction_arguments on its own (real body): positional arguments in signature order, keywords after the first omitted
     parameter, ValueError for a missing parameter without default"""
@@ -273,10 +292,15 @@ def build(run):
             run.add(static(f"{module}.{c}/exists", False, f"not found: {ex_}", fn=f"{module}.{c}"))
     verify_alias(run)
     verify_binding(run)
+    verify_statics(run)
     b = 200 if run.tier == "quick" else 2000
     known = [c for c, _ in KNOWN.values()]
     run.bounded("exporter.PythonExporter+library.Representation/exec_eval_round_trip.runtime", N_, "replay_python_roundtrip", [dict(seed=run.seed, budget=b, skip_classes=NOT_DEMANDED + known)],
                 bound=f"{b // 5} generated engines (arbitrary finite doubles, inf/NaN, quotes in descriptions, weights on the decimals grid; every 4th imported from FLL) x aliases fl / '' / * / fuzzy x repr / encapsulated / formatted; every component class x parameter variants x 4 aliases x repr / create(): exec of the import statement, eval/exec of the export, equal repr, equal FLL export, bit-identical outputs")
+    run.bounded("library.Representation.repr_ndarray/array_elements.runtime", "contracts.repr_native", "replay_array_repr", [dict(seed=run.seed)],
+                bound="Discrete terms and arrays whose rows contain +-inf / NaN / plain numbers at every position x aliases fl, '', *, fuzzy: eval(repr) after the import statement, equal values and repr")
+    run.bounded("engine.Engine.__init__/rebuilt_engine_references.runtime", "contracts.repr_native", "replay_rebuild_references", [dict(seed=run.seed)],
+                bound="an engine with Function and Linear terms in an input variable and in an output variable, rebuilt from repr and from the encapsulated export under 3 aliases: bit-identical outputs on 5 input rows")
     for fid, (cls, name) in KNOWN.items():
         others = [c for c, _ in KNOWN.values() if c != cls]
         run.bounded_known(name, N_, "replay_python_roundtrip", dict(seed=run.seed, budget=200, only_class=cls, skip_classes=others), fid)
